@@ -184,3 +184,90 @@ Example C01_runs_nonvacuous :
                   SExpr 4 (EIndex (EVar "x") (EInt 7))]
   = ([OList [OInt 1; OInt 2; OInt 3]], Failed IndexErr (Some 4)).
 Proof. vm_compute. reflexivity. Qed.
+
+(* ---- C01: slot resolution + slot machine simulate the reference semantics (Scope/SlotSyntax.v, SlotSem.v, SlotSim.v) ----
+   Paste at the end of coq/Properties/C01.v.  `Require` without `Import`: every name below is fully qualified, so nothing of
+   C01.v is shadowed.  COQ_TARGETS of tools/props/C01.py needs "Scope/SlotSim.vo" (it pulls SlotSyntax.vo and SlotSem.vo). *)
+From SV Require Scope.SlotSyntax Scope.SlotSem Scope.SlotSim.
+
+(* slots_sim, proved part.  SlotSyntax.resolve_prog = the compiler's name resolution into Module / Local / Captured / Builtin slots
+   (None when a name does not resolve); SlotSem.run_slot_program = the evaluator's frame discipline (slot arrays, cells for captured
+   variables allocated lazily and kept in the slot, closures carrying the cells of the enclosing frame, module slots).
+   For every program in which no lambda captures a COMPREHENSION variable, and whose reference run does not fail with Unbound,
+   the slot machine yields the same transcript and the same outcome as Sem.run_program, with the same fuel.
+   Covered: module variables, locals, parameters, defaults, *args/**kwargs, nested defs and lambdas capturing locals/parameters of
+   any enclosing function (also before their first assignment, also loop variables), recursion, comprehension scoping and
+   shadowing, every expression/statement form of MiniStar. *)
+Theorem C01_slots_sim_partial : forall fuel prog sp,
+  SlotSyntax.resolve_prog prog = Some sp ->
+  SlotSyntax.compr_vars_uncaptured prog = true ->
+  (forall ln, snd (Sem.run_program fuel prog) <> Sem.Failed Values.Unbound ln) ->
+  SlotSem.run_slot_program fuel sp = Sem.run_program fuel prog.
+Proof. exact SlotSim.slots_sim_partial. Qed.
+
+(* the same, stated with the resolver that refuses the excluded programs *)
+Theorem C01_slots_sim_strict : forall fuel prog sp,
+  SlotSyntax.resolve_prog_strict prog = Some sp ->
+  (forall ln, snd (Sem.run_program fuel prog) <> Sem.Failed Values.Unbound ln) ->
+  SlotSem.run_slot_program fuel sp = Sem.run_program fuel prog.
+Proof. exact SlotSim.slots_sim_strict. Qed.
+
+(* the strict resolver only refuses more programs: what it produces is what the compiler's resolver produces *)
+Theorem C01_slots_strict_resolver_agrees : forall prog sp,
+  SlotSyntax.resolve_prog_strict prog = Some sp -> SlotSyntax.resolve_prog prog = Some sp.
+Proof. exact SlotSim.strict_prog. Qed.
+
+(* The FULL statement (forall fuel prog sp, resolve_prog prog = Some sp -> run_slot_program fuel sp = run_program fuel prog) is
+   REFUTED by the faithful machine: the evaluator keeps the cell of a captured comprehension variable in its frame slot, so all
+   evaluations of that comprehension in one activation share it.  Witness SlotSem.ex_compr_cell_shared; the same program on the
+   real evaluator prints [1, 1] where the reference semantics (and Python) give [0, 1]:
+     def f():
+         fs = []
+         for i in range(2):
+             fs.append([lambda: x for x in [i]])
+         emit([g[0]() for g in fs])
+     f()                                                                                                                       *)
+Theorem C01_slots_sim_refuted :
+  exists fuel prog sp, SlotSyntax.resolve_prog prog = Some sp /\
+    (forall ln, snd (Sem.run_program fuel prog) <> Sem.Failed Values.Unbound ln) /\
+    SlotSem.run_slot_program fuel sp <> Sem.run_program fuel prog.
+Proof. exact SlotSim.slots_sim_refuted. Qed.
+
+(* and the Unbound side condition cannot be dropped either: a comprehension slot keeps its value across evaluations, so a read
+   before assignment in a LATER evaluation of the same comprehension succeeds on the machine (witness SlotSem.ex_compr_stale_slot;
+   the real evaluator prints [[2], [2]] where the reference fails):
+     def f():
+         r = []
+         for i in range(2):
+             r.append([b for a in [i] if (a == 0 or b) for b in [2]])
+         emit(r)
+     f()                                                                                                                       *)
+Theorem C01_slots_sim_unbound_needed :
+  exists fuel prog sp, SlotSyntax.resolve_prog prog = Some sp /\ SlotSyntax.compr_vars_uncaptured prog = true /\
+    SlotSem.run_slot_program fuel sp <> Sem.run_program fuel prog.
+Proof. exact SlotSim.slots_sim_unbound_needed. Qed.
+
+(* the hypotheses are satisfiable on non-trivial programs, and both interpreters really run them:
+   nested def capturing a loop variable and a parameter; comprehension shadowing a parameter; recursion, defaults, *args/**kwargs,
+   a variable captured before its first assignment, a failing last statement *)
+Example C01_slots_capture_loop_nonvacuous :
+  SlotSyntax.compr_vars_uncaptured SlotSem.ex_capture_loop = true /\
+  SlotSem.run_resolved 60 SlotSem.ex_capture_loop = Some (Sem.run_program 60 SlotSem.ex_capture_loop) /\
+  Sem.run_program 60 SlotSem.ex_capture_loop =
+    ([Values.OList [Values.OInt 15; Values.OInt 15; Values.OInt 15]; Values.OInt 12], Sem.Done).
+Proof. vm_compute. repeat split. Qed.
+
+Example C01_slots_compr_shadow_nonvacuous :
+  SlotSyntax.compr_vars_uncaptured SlotSem.ex_compr_shadow = true /\
+  SlotSem.run_resolved 60 SlotSem.ex_compr_shadow = Some (Sem.run_program 60 SlotSem.ex_compr_shadow) /\
+  fst (Sem.run_program 60 SlotSem.ex_compr_shadow) =
+    [Values.OTuple [Values.OList [Values.OInt 1; Values.OInt 2; Values.OInt 9; Values.OInt 12]; Values.OInt 2];
+     Values.OList [Values.OInt 5; Values.OInt 6]; Values.OInt 5].
+Proof. vm_compute. repeat split. Qed.
+
+Example C01_slots_recursion_nonvacuous :
+  SlotSyntax.compr_vars_uncaptured SlotSem.ex_recursion = true /\
+  SlotSem.run_resolved 60 SlotSem.ex_recursion = Some (Sem.run_program 60 SlotSem.ex_recursion) /\
+  Sem.run_program 60 SlotSem.ex_recursion =
+    ([Values.OInt 120; Values.OTuple [Values.OInt 6; Values.OInt 33]], Sem.Failed Values.Unbound (Some 11)).
+Proof. vm_compute. repeat split. Qed.
